@@ -8,7 +8,7 @@
 using namespace datasketches;
 namespace vf { namespace c11 {
 
-unsigned variants(bool thorough) { return thorough ? 20 : 4; }
+unsigned variants(bool thorough) { return thorough ? 20 : 3; }
 
 // ------------------------------------------------------------------ items
 static std::string istr(float f) { return num(static_cast<double>(f)); }
